@@ -79,3 +79,52 @@ Proof.
   intros He Ht. rewrite (sched_confluent _ cap _ sch s' He Ht).
   rewrite sequential_pool by lia. rewrite firstn_all. symmetry. apply file_lines_src.
 Qed.
+
+(* ---- both kinds of front-end print the same lines when they select the same checkers and the CLI
+        filters no file ---- *)
+Lemma an_lines_filter reg af files :
+  an_lines reg af files =
+  flat_map (fun f => flat_map (fun c => if an_selected af c
+      then map (fun w => fmt_line (fst w) (cname c) (snd w)) (warnings_of f c) else []) reg) files.
+Proof.
+  unfold an_lines, an_filter. apply flat_map_ext_in. intros f _. apply flat_map_filter.
+Qed.
+
+Lemma frontends_same_lines reg fl af cfg files :
+  forallb valid_checker reg = true ->
+  (forall c, In c reg -> an_selected af c = cli_selected reg fl c) ->
+  (forall f, In f files -> file_checked cfg {| fname := sf_name f; fgroups := sf_groups f; fwarn := [] |} = true) ->
+  spec_lines reg fl cfg files = an_lines reg af files.
+Proof.
+  intros Hv Hsel Hf. rewrite an_lines_filter. unfold spec_lines.
+  apply flat_map_ext_in. intros f Hin. rewrite (Hf f Hin).
+  apply flat_map_ext_in. intros c Hc.
+  assert (Hvc : valid_checker c = true) by (rewrite forallb_forall in Hv; auto).
+  rewrite (Hsel c Hc). unfold cli_selected. rewrite (filter_selected_spec _ _ _ c Hvc). reflexivity.
+Qed.
+
+Lemma selected_nil_iff reg fl af :
+  (forall c, In c reg -> an_selected af c = cli_selected reg fl c) ->
+  an_filter af reg = selected reg fl.
+Proof.
+  intros H. unfold an_filter, selected. apply filter_ext_in. exact H.
+Qed.
+
+Lemma frontends_agree reg fl af cfg files :
+  forallb valid_checker reg = true ->
+  (forall c, In c reg -> an_selected af c = cli_selected reg fl c) ->
+  (forall f, In f files -> file_checked cfg {| fname := sf_name f; fgroups := sf_groups f; fwarn := [] |} = true) ->
+  match system_run reg fl cfg files, analysis_run reg af files with
+  | SysFatal _, AnError => True
+  | SysExit c1 l1, AnExit c2 l2 => l1 = l2 /\ (c2 = 0%Z <-> l1 = []) /\ (l1 = [] -> c1 = 0%Z)
+  | _, _ => False
+  end.
+Proof.
+  intros Hv Hsel Hf. rewrite (system_run_spec reg fl cfg files Hv). unfold analysis_run.
+  rewrite (selected_nil_iff reg fl af Hsel).
+  destruct (selected reg fl) as [|c r]; [exact I|].
+  rewrite (frontends_same_lines reg fl af cfg files Hv Hsel Hf).
+  split; [reflexivity|]. destruct (an_lines reg af files) as [|x l]; cbn [an_nonempty nonempty].
+  - split; [split; reflexivity|reflexivity].
+  - split; [split; discriminate|discriminate].
+Qed.
